@@ -1,6 +1,10 @@
 package core
 
-import "golang.org/x/tools/go/ssa"
+import (
+	"go/token"
+
+	"golang.org/x/tools/go/ssa"
+)
 
 // Region returns the blocks executed as part of an iteration of the loop: everything
 // reachable from the block entered when the loop condition holds, without passing the
@@ -26,5 +30,118 @@ func (l *IndexLoop) Region() map[*ssa.BasicBlock]bool {
 	}
 	visit(l.Stay)
 	out[l.Header] = true
+	return out
+}
+
+// Pos is a source position for reports about the loop.
+func (l *IndexLoop) Pos() token.Pos {
+	if l.Phi != nil {
+		return l.Phi.Pos()
+	}
+	if l.Yield != nil {
+		return l.Yield.Pos()
+	}
+	return token.NoPos
+}
+
+// Latches returns the blocks that end an iteration and start the next one: the sources of
+// the back edges of a counting loop, or the `return true` blocks of a range-over-func body.
+func (l *IndexLoop) Latches() []*ssa.BasicBlock {
+	var out []*ssa.BasicBlock
+	if l.Yield != nil {
+		for _, b := range l.Yield.Blocks {
+			if len(b.Instrs) == 0 {
+				continue
+			}
+			if ret, ok := b.Instrs[len(b.Instrs)-1].(*ssa.Return); ok && len(ret.Results) == 1 {
+				if k, isK := ret.Results[0].(*ssa.Const); isK && k.Value != nil && k.Value.String() == "false" {
+					continue // break / return from inside the body
+				}
+				out = append(out, b)
+			}
+		}
+		return out
+	}
+	for _, p := range l.Header.Preds {
+		if l.Header.Dominates(p) {
+			out = append(out, p)
+		}
+	}
+	return out
+}
+
+// rangeFuncLoops recognises `for i, v := range slices.All(s)`, `slices.Values(s)` and
+// `slices.Backward(s)` (s possibly a reslice s[lo:len(s)-k]): go/ssa compiles the body
+// into a synthetic yield closure that the iterator calls once per element.
+func rangeFuncLoops(fn *ssa.Function) []*IndexLoop {
+	var out []*IndexLoop
+	for _, b := range fn.Blocks {
+		for _, in := range b.Instrs {
+			call, ok := in.(*ssa.Call)
+			if !ok || len(call.Call.Args) != 1 || call.Call.IsInvoke() {
+				continue
+			}
+			mc, ok := call.Call.Args[0].(*ssa.MakeClosure)
+			if !ok {
+				continue
+			}
+			yield, _ := mc.Fn.(*ssa.Function)
+			if yield == nil || yield.Synthetic != "range-over-func yield" {
+				continue
+			}
+			it, ok := call.Call.Value.(*ssa.Call)
+			if !ok || len(it.Call.Args) != 1 {
+				continue
+			}
+			callee := it.Call.StaticCallee()
+			if callee == nil || callee.Pkg == nil && callee.Origin() == nil {
+				continue
+			}
+			o := callee
+			if o.Origin() != nil {
+				o = o.Origin()
+			}
+			if o.Pkg == nil || o.Pkg.Pkg.Path() != "slices" {
+				continue
+			}
+			l := &IndexLoop{Yield: yield, Body: map[*ssa.BasicBlock]bool{}, Shape: "rangefunc"}
+			switch o.Name() {
+			case "All", "Values":
+			case "Backward":
+				l.Desc = true
+			default:
+				continue
+			}
+			for _, yb := range yield.Blocks {
+				l.Body[yb] = true
+			}
+			if len(yield.Blocks) > 0 {
+				l.Header = yield.Blocks[0]
+			}
+			if o.Name() != "Values" && len(yield.Params) > 0 {
+				l.Index = yield.Params[0]
+			}
+			// the slice iterated: s, or s[lo:len(s)-k]
+			src := it.Call.Args[0]
+			l.LenOf, l.Lo, l.HiOff = src, 0, 1
+			if sl, isSl := src.(*ssa.Slice); isSl && sl.Max == nil {
+				lo, okLo := 0, true
+				if sl.Low != nil {
+					lo, okLo = constInt(sl.Low)
+				}
+				if !okLo {
+					continue
+				}
+				if sl.High == nil {
+					l.LenOf, l.Lo = sl.X, lo
+				} else if x, c, okHi := lenMinus(sl.High); okHi && x == sl.X {
+					l.LenOf, l.Lo, l.HiOff = sl.X, lo, c+1
+				} else {
+					continue
+				}
+			}
+			out = append(out, l)
+		}
+	}
 	return out
 }
